@@ -141,3 +141,9 @@ package bpv7
 
 // At most one block per type (C02) - here for the bundle age block.
 // govc:spec ageUnique(b Bundle) bool = forall j, k int :: 0 <= j && j < len(b.CanonicalBlocks) && 0 <= k && k < len(b.CanonicalBlocks) && b.CanonicalBlocks[j].Value.BlockTypeCode() == 7 && b.CanonicalBlocks[k].Value.BlockTypeCode() == 7 ==> j == k
+
+// Whether a block type is supported is the extension block registry's answer for its type code (registry contents
+// are an assumption, DESIGN.md section 5).
+// govc:trusted (*ExtensionBlockManager).IsKnown
+//@ assigns nothing
+//@ ensures result == uf("ebmKnown", bool, typeCode)
